@@ -565,6 +565,8 @@ package xmss
 //@   after xmss.bdsRound 1 assert[C08,C02] j == currentIdx + ncalls("xmss.bdsRound", 1) - 1
 //@   after xmss.bdsRound 1 assert[C08] skSeed[0:32] == old(sk[4:36]) && pubSeed[0:32] == old(sk[68:100]) && otsAddr[0] == 0 && otsAddr[1] == 0 && otsAddr[2] == 0
 //@   after xmss.bdsTreeHashUpdate 1 assert[C08] skSeed[0:32] == old(sk[4:36]) && pubSeed[0:32] == old(sk[68:100]) && otsAddr[0] == 0 && otsAddr[1] == 0 && otsAddr[2] == 0
+//@   after xmss.bdsTreeHashUpdate 1 assert[C08] ncalls("xmss.bdsRound", 1) == ncalls("xmss.bdsTreeHashUpdate", 1)
+//@   after xmss.bdsRound 1 assert[C08] ncalls("xmss.bdsRound", 1) == ncalls("xmss.bdsTreeHashUpdate", 1) + 1
 //@   exit[C08,C02] result == 0 ==> ncalls("xmss.bdsRound", 1) == newIdx - old(idxOf(sk)) && ncalls("xmss.bdsTreeHashUpdate", 1) == newIdx - old(idxOf(sk))
 
 //@ func xmssFastSignMessage
@@ -580,6 +582,8 @@ package xmss
 //@   exit[C06,C01] !iserr(result1) ==> skSeed[0:32] == old(sk[4:36]) && pubSeed[0:32] == old(sk[68:100])
 //@   after xmss.bdsRound 1 assert[C08] skSeed[0:32] == old(sk[4:36]) && pubSeed[0:32] == old(sk[68:100]) && otsAddr[0] == 0 && otsAddr[1] == 0 && otsAddr[2] == 0
 //@   after xmss.bdsTreeHashUpdate 1 assert[C08] skSeed[0:32] == old(sk[4:36]) && pubSeed[0:32] == old(sk[68:100]) && otsAddr[0] == 0 && otsAddr[1] == 0 && otsAddr[2] == 0
+//@   after xmss.bdsTreeHashUpdate 1 assert[C08] ncalls("xmss.bdsRound", 1) == ncalls("xmss.bdsTreeHashUpdate", 1)
+//@   after xmss.bdsRound 1 assert[C08] ncalls("xmss.bdsRound", 1) == ncalls("xmss.bdsTreeHashUpdate", 1) + 1
 //@   exit[C06,C01,C08] !iserr(result1) ==> (called("xmss.bdsRound", 1) <==> idx < spec.pow2(params.h) - 1) && (called("xmss.bdsTreeHashUpdate", 1) <==> idx < spec.pow2(params.h) - 1)
 //@   assigns sk[0:4], bdsAll(bdsState)
 //@   loop 1 invariant 0 <= i && i <= n && n == 32 && idxOf(sigMsg) == idx
